@@ -326,7 +326,7 @@ def slim(spec, keep=None):
 
 def run(ctx):
     from .common import h2fs
-    n_scenes = ctx.scale(8, 60)
+    n_scenes = ctx.scale(7, 60)
     for i in range(n_scenes):
         spec = gen_scene(ctx.rng, i)
         res = impl_scene(spec)
